@@ -14,4 +14,4 @@ open Comrak.C15
 #print axioms ref_ids_distinct_counterexample
 #print axioms unreferenced_omitted_counterexample
 #print axioms defs_rendered_once_counterexample
-#print axioms refs_point_to_rendered_def_counterexample
+#print axioms refs_point_to_rendered_def_after_fix
